@@ -105,6 +105,11 @@ class C10(MsgProp):
                     for op in perm_ops:
                         self.plan.append((n, op, S, G, C, ids, None, perm_ops[0]))
                         yield (op, "admissible", len(S) >= 2 and len(G) >= 2)
+                    if len(S) <= 4 or r.random() < 0.2:
+                        # the same input in containers with a history (stale rows behind the active part)
+                        opd = "ENCD" + perm_ops[-1][3:]
+                        self.plan.append((n, opd, S, G, C, ids, None, perm_ops[0]))
+                        yield (opd, "admissible-containers-with-history", True)
                 else:
                     rows = g.msm(r, f, "valid", invalid=inv)
                     op = "ENC %d %s" % (n, " ".join(head + rows))
